@@ -290,6 +290,28 @@ def cases(chunk):
                 feat[rng.choice(NAMES)][rng.randrange(n)] = float("nan")
             c = env_case(feat, rng)
             ast = random_tree(rng, rng.randrange(1, chunk["maxdepth"] + 1))
+            if i % 8 == 5:
+                # realistic magnitudes: projected map coordinates of millions of metres that differ by millimetres,
+                # epoch seconds of today that differ by one second -- in features, coordinates, timestamps and
+                # literals; the expressions are comparisons and light arithmetic on them
+                big = rng.choice([[6861234.002, 6861234.004, 6861234.006, 6861234.008],
+                                  [1758016805.0, 1758016806.0, 1758016807.0, 1758016808.0],
+                                  [652345.123, 652345.125, 652345.121, 652345.127]])
+                feat = {k: [rng.choice(big) for _ in range(n)] for k in NAMES}
+                c = env_case(feat, rng)
+                c["xyz"] = [[rng.choice(big) for _ in range(3)] for _ in range(n)]
+                t0 = 1758016800000 + rng.randrange(0, 5) * 1000
+                c["times_ms"] = [t0 + 1000 * k for k in range(n)]
+                L, R = ["var", rng.choice(NAMES + ["x", "y", "t"])], rng.choice([["var", rng.choice(NAMES + ["y", "t"])],
+                                                                               ["num", repr(rng.choice(big))]])
+                if rng.random() < 0.5:
+                    L, R = R, L
+                if L[0] == "num" and R[0] == "num":
+                    L = ["var", "a"]
+                ast = ["bin", rng.choice(["<", ">", "<", ">", "-", "+"]), L, R]
+                if rng.random() < 0.3:
+                    ast = ["bin", rng.choice(["*", "+"]), ["par", ast], ["var", rng.choice(NAMES)]]
+                c["big"] = 1
             if i % 6 == 0:
                 ast = repeated_term_tree(rng)
                 c["rt"] = 1
@@ -749,6 +771,8 @@ def run_tree(case, ctx):
     cls.add("size:%d" % n)
     if case.get("rt"):
         cls.add("repeated_function_term")
+    if case.get("big"):
+        cls.add("realistic_magnitudes")
     stmts = case["stmts"] if case["kind"] == "seq" else [case]
     texts = []
     nt = False
@@ -913,7 +937,7 @@ def classify(case, witness):
 
 # floors for the call-history workloads added in session 3 (a run in which they were silently skipped is inconclusive)
 _floors_base = floors
-_FLOORS_EXTRA = {'classes': {'nan_in_minmax': 500, 'repeated_function_term': 1000, 'externals_dictionary': 500}}
+_FLOORS_EXTRA = {'classes': {'nan_in_minmax': 500, 'repeated_function_term': 1000, 'externals_dictionary': 500, 'realistic_magnitudes': 800}}
 
 
 def floors(tier):
